@@ -47,6 +47,8 @@ def workload(tier, rng):
     for _ in range(120 if q else 1500):
         c = rng.choice([1, 2, 2, 3])
         length = rng.choice(list(range(1, 81)) + [100, 128, 131, 255, 1000])
+        if rng.random() < 0.12:      # sizes at which slicing / blocking / narrowed counters change regime
+            length = rng.choice([2048, 4095, 4096, 4097] if c == 3 else [2048, 4095, 4096, 4097, 8192, 12288, 16384, 65536, 65537, 70000])
         if c == 3:
             k = rng.randint(1, 24); r = rng.randint(3, 16)
             p = P(3, k, r, N1=rng.randint(3, min(r, 7)), seed=rng.randint(1, 10 ** 9), length=max(length, gen.need_len(3, k, 0)),
@@ -55,7 +57,15 @@ def workload(tier, rng):
             m = 0 if c == 1 else rng.choice([4, 4, 8]); lim = 15 if m == 4 else 40
             n = rng.randint(2, lim); k = rng.randint(1, n - 1)
             p = P(c, k, n - k, m=m, length=max(length, gen.need_len(c, k, m)), payload="idr", align=rng.randint(0, 7))
-        execs.append(gen.encode_exec(p, slots=rng.choice(["buf", "null", ["buf", "null"]])))
+        execs.append(gen.encode_exec(p, slots=rng.choice(["buf", "null", ["buf", "null"]]), both=rng.random() < 0.15))
+    # every codec at the page / 16-bit sizes, whatever the random draws above picked
+    for length in ([4096, 8192, 65536] if q else [2048, 4095, 4096, 4097, 8192, 12288, 16384, 32768, 65535, 65536, 65537, 131072]):
+        for (c, m) in ((1, 0), (2, 8), (2, 4), (3, 0)):
+            if c == 3 and length > 8192:
+                continue
+            k = rng.randint(2, 6); r = rng.randint(3, 5)
+            p = P(c, k, r, m=m, N1=3 if c == 3 else 0, seed=rng.randint(1, 10 ** 6), length=length, payload="idr", align=rng.choice([0, 1]))
+            execs.append(gen.encode_exec(p, slots=["buf", "null"]))
     # random payloads: only status / slot / source-buffer integrity are observable
     for _ in range(20 if q else 200):
         c = rng.choice([1, 2, 3])
@@ -82,6 +92,13 @@ def run(pid, tier):
                           os.path.join(bdir, "mc"), workers=4, xmx="4g", timeout=1800)
         if mc.violated or "Model checking completed. No error" not in mc.out:
             raise vlib.Infra("GF2mModel: field/generator lemma fails in the specification itself:\n" + mc.out[-3000:])
+        # the encoding-matrix construction as the code performs it (Vandermonde fill, synthetic-division inverse,
+        # product) yields exactly the generator rows the traces are judged against
+        cfg2 = "RsCodec_quick" if tier == "quick" else "RsCodec_gf16"
+        mc2 = vlib.run_tlc(os.path.join(vlib.SPEC, "RsCodecModel.tla"), os.path.join(vlib.SPEC, cfg2 + ".cfg"),
+                           os.path.join(bdir, "mc2"), workers=8, xmx="4g", timeout=1800)
+        if mc2.violated or "Model checking completed. No error" not in mc2.out:
+            raise vlib.Infra("RsCodecModel: the transcribed matrix construction disagrees with the generator definition:\n" + mc2.out[-3000:])
         drv = vlib.build_driver(bdir)
         execs = workload(tier, rng)
         lines = gen.join(execs).split("\n")
@@ -90,8 +107,8 @@ def run(pid, tier):
         rc = verdict.finish()
         st = apicheck.stats_summary(api)
         cov = {
-            "states": mc.distinct + api["distinct"],
-            "transitions": mc.states + api["states"],
+            "states": mc.distinct + mc2.distinct + api["distinct"],
+            "transitions": mc.states + mc2.states + api["states"],
             "traces_validated_against_impl": api["execs"],
             "samples": apicheck.sample_execs(lines, 3),
             "evaluations": len(execs),
